@@ -14,7 +14,7 @@ THEOREMS = ["OdeVerif.C01.assemble_ok_linear", "OdeVerif.C01.flow_identity", "Od
             "OdeVerif.Refine.propagatorSolver_error_iff", "OdeVerif.Refine.propagatorSolver_ok", "OdeVerif.Refine.propagatorSolver_ok_of_model"]
 LEVEL = "proof"
 LINEAR_SHAPES = ["isolated", "chain", "fan_in", "fan_out", "cycle", "antisym", "nonadjacent", "offset_single", "offset_in_group", "depends_on_offset",
-                 "higher_order", "higher_order_offset", "analytic_dep_numeric", "dense3", "const_drift", "offset_single", "chain_from_offset"]
+                 "higher_order", "higher_order_offset", "analytic_dep_numeric", "dense3", "const_drift", "offset_single", "chain_from_offset", "tiny_literals"]
 
 
 def gen(ctx, n):
